@@ -1,6 +1,7 @@
 package main
 
 import (
+	"math/big"
 	"context"
 	"encoding/json"
 	"errors"
@@ -16,6 +17,7 @@ import (
 	llotypes "github.com/smartcontractkit/chainlink-common/pkg/types/llo"
 
 	"github.com/smartcontractkit/chainlink-data-streams/llo"
+	"github.com/smartcontractkit/chainlink-data-streams/llo/reportcodecs/evm"
 )
 
 // ---------- collaborators ----------
@@ -132,8 +134,20 @@ func (c *hReportCodec) Encode(r llo.Report, cd llotypes.ChannelDefinition) ([]by
 		}
 		vals[i] = svJ(v)
 	}
-	return marshal(J{"kind": "channel", "channel": S(r.ChannelID), "seqNr": S(r.SeqNr), "validAfter": S(r.ValidAfterNanoseconds),
-		"obsTs": S(r.ObservationTimestampNanoseconds), "specimen": r.Specimen, "values": vals}), nil
+	rec := J{"kind": "channel", "channel": S(r.ChannelID), "seqNr": S(r.SeqNr), "validAfter": S(r.ValidAfterNanoseconds),
+		"obsTs": S(r.ObservationTimestampNanoseconds), "specimen": r.Specimen, "values": vals}
+	if c.strict && cd.ReportFormat == llotypes.ReportFormatEVMPremiumLegacy && len(cd.Opts) > 0 && cd.Opts[0] == '{' && !r.Specimen {
+		// a well-formed premium-legacy channel: what the REAL codec puts on chain for this report, read back word by
+		// word (feed id, validFromTimestamp, observationsTimestamp, …) — the on-chain window of the report
+		b, err := evm.NewReportCodecPremiumLegacy(logger.Nop(), 1).Encode(r, cd)
+		if err != nil {
+			return nil, err
+		}
+		if len(b) >= 96 {
+			rec["_onchain"] = J{"validFrom": new(big.Int).SetBytes(b[32:64]).String(), "obsTs": new(big.Int).SetBytes(b[64:96]).String()}
+		}
+	}
+	return marshal(rec), nil
 }
 func (c *hReportCodec) Verify(cd llotypes.ChannelDefinition) error {
 	if c.badOpts[string(cd.Opts)] {
